@@ -99,7 +99,7 @@ SPEC = {
         "C11_skeleton_readableSet_Iterator", "C11_skeleton_readableSet_Clone", "C11_skeleton_readableSet_ToSlice",
         "C11_skeleton_readableSet_String", "C11_skeleton_SerializableOrderedMap_Encode", "C11_skeleton_SerializableOrderedMap_Decode",
         "C11_methodset_set", "C11_methodset_readableSet", "C11_methodset_SerializableOrderedMap", "C11_methodset_OrderedMap",
-        "C11_methodset_applymutex_confined", "C11_applymutex_table", "C11_no_reentrant_applymutex", "C11_methodset_modelled",
+        "C11_codec_decode_into_receiver", "C11_methodset_applymutex_confined", "C11_applymutex_table", "C11_no_reentrant_applymutex", "C11_methodset_modelled",
     ],
     "trusted_base": [
         "hand-written models Hive/Model/OMap.lean (abstract ordered map, ds.Set, SetMutations, SetArithmetic, byte format), "
